@@ -238,6 +238,12 @@ func randSerial(r Rand) *big.Int {
 	b := r.Bytes(20)
 	b[0] &= 0x7f
 	b[0] |= 0x10
+	// mostly 20 bytes as Intel issues them; one in four shorter (a leading zero byte, or a short serial):
+	// serial numbers are integers, not fixed-width strings
+	if r.Chance(1, 4) {
+		b = b[[]int{1, 1, 4, 12, 17, 19}[r.Draw(6)]:]
+		b[0] |= 0x01
+	}
 	return new(big.Int).SetBytes(b)
 }
 
